@@ -27,6 +27,18 @@ CORPUS = [
 ]
 
 
+def labels_before_input(rng):
+    """two labels registered by the pre-executable prefix in DECREASING id order, each after a run of plain commands
+    (block index != command index), then residual code that jumps back to the first one while the input character
+    is below 'B' (seeded change C03-point-sort-by-id)"""
+    hA, hB = rng.sample(range(2, 13), 2)
+    pre = [push(rng.randint(1, 9)) for _ in range(rng.randint(2, 4))]
+    p = pre + [(0, 2, 33, L(hA))] + print_char(rng.choice([65, 97])) + [(0, 1, 2, L(hB))] + print_char(66)
+    p += [(5, 1, 0, None), (1, 1, 66, (0, L(hA), None))] + print_char(rng.choice([90, 10]))
+    if rng.random() < 0.5: p += [(0, 1, 2, (0, None, (0, L(hB), None)))]
+    return p
+
+
 def cat_progs():
     """the C14 copy programs in tuple form"""
     out = []
@@ -144,6 +156,9 @@ def main(tier, seed):
         progs = list(CORPUS) + cat_progs()
         for k in range(n):
             r = rng.random()
+            if r < 0.05:
+                progs.append((labels_before_input(rng), rng.choice(["xAAB", "xA", "AAAAC\n", "", "B"])))
+                continue
             if r < 0.2:
                 # pre-executable prefix that leaves state behind, then code that needs input
                 p = rng.choice([idiom_fraction, idiom_multi, idiom_stacks, idiom_label_return, idiom_loop, idiom_print])(rng)
